@@ -2,16 +2,16 @@
    h <maxv> <tf> <misc> <nx> <nodata> <deleg> <trunc> <nev> <event>*   (raw setter arguments; `d` x 7 = Config::default())
    event := q <name> <class> <type> <flags rd|cd<<1|ad<<2|do<<3> <opcode> <now_ms> <delay_ms> <resp>
           | x <n>
-   resp  := e <code> | m <rcode> <flags aa|tc<<1|rd<<2|ad<<3> <q: - | type:class> <nan> <nns> <nar> <rec>*
-   rec   := type:class:ttl:id
-   Output: observations joined by " | ": F, B, X, S e<code>, S m <rcode> <flags> [recs] [recs] [recs];
+   resp  := e <code> | m <id> <rcode> <flags aa|tc<<1|rd<<2|ad<<3|broken<<4> <q: - | type:class> <nan> <nns> <nar> <rec>*
+   rec   := type:class:ttl:id:bad
+   Output: observations joined by " | ": F, FE<code>, X, S e<code>, S m <id> <rcode> <flags> [recs] [recs] [recs];
    `Panic` if the model panics anywhere in the history. *)
 let ni s = n_of_int (int_of_string s)
 let bit v i = (v lsr i) land 1 = 1
 
 let parse_rec s =
   match String.split_on_char ':' s with
-  | [t; c; ttl; id] -> { r_type = ni t; r_class = ni c; r_ttl = ni ttl; r_id = ni id }
+  | [t; c; ttl; id; bad] -> { r_type = ni t; r_class = ni c; r_ttl = ni ttl; r_id = ni id; r_bad = (bad = "1") }
   | _ -> failwith ("bad record " ^ s)
 
 let rec take n l acc =
@@ -21,7 +21,7 @@ let rec take n l acc =
 let parse_resp l =
   match l with
   | "e" :: code :: rest -> (RErr (ni code), rest)
-  | "m" :: rcode :: flags :: q :: nan :: nns :: nar :: rest ->
+  | "m" :: id :: rcode :: flags :: q :: nan :: nns :: nar :: rest ->
       let f = int_of_string flags in
       let q = if q = "-" then None else
         (match String.split_on_char ':' q with
@@ -29,9 +29,9 @@ let parse_resp l =
       let (an, rest) = take (int_of_string nan) rest [] in
       let (ns, rest) = take (int_of_string nns) rest [] in
       let (ar, rest) = take (int_of_string nar) rest [] in
-      (RMsg { m_rcode = ni rcode; m_aa = bit f 0; m_tc = bit f 1; m_rd = bit f 2; m_ad = bit f 3;
+      (RMsg { m_id = ni id; m_rcode = ni rcode; m_aa = bit f 0; m_tc = bit f 1; m_rd = bit f 2; m_ad = bit f 3;
               m_q = q; m_an = List.map parse_rec an; m_ns = List.map parse_rec ns;
-              m_ar = List.map parse_rec ar }, rest)
+              m_ar = List.map parse_rec ar; m_broken = bit f 4 }, rest)
   | _ -> failwith "bad response"
 
 let rec parse_events n l acc =
@@ -52,12 +52,13 @@ let b2i b = if b then 1 else 0
 let show_resp = function
   | RErr e -> "e" ^ string_of_int (int_of_n e)
   | RMsg m ->
-      Printf.sprintf "m %d %d %s %s %s" (int_of_n m.m_rcode)
+      Printf.sprintf "m %d %d %d %s %s %s" (int_of_n m.m_id) (int_of_n m.m_rcode)
         (b2i m.m_aa lor (b2i m.m_tc lsl 1) lor (b2i m.m_rd lsl 2) lor (b2i m.m_ad lsl 3))
         (show_sec m.m_an) (show_sec m.m_ns) (show_sec m.m_ar)
 let show_obs = function
   | OServed r -> "S " ^ show_resp r
   | OForwarded -> "F"
+  | OFwdErr e -> "FE" ^ string_of_int (int_of_n e)
   | OBypass -> "F"  (* not distinguishable from outside: both reach upstream *)
   | OEvicted -> "X"
 
